@@ -103,7 +103,7 @@ class Main(Part):
 
     def budget(self, tier):
         return {"quick": dict(examples=350, shards=6, seconds=80),
-                "thorough": dict(examples=3000, shards=16, seconds=900)}[tier]
+                "thorough": dict(examples=3000, shards=16, seconds=600)}[tier]
 
     def strategy(self, tier):
         return st_case(4 if tier == "quick" else 6)
